@@ -5,6 +5,10 @@ import json, sys
 ALL = ["C%02d" % i for i in range(1, 21)]
 
 CHECKS = {
+ "C16": dict(level="exploration", design="§3 C16",
+   technique="exhaustive sweep of instants (every unit step of a range, every unit boundary +-1ns, every frame boundary) through the public writers and readers, batched; rendering parsed by the harness and compared with floor; read back; second write compared byte for byte",
+   text="Quick: every ms of the first 20 min and around the listed hour marks, all boundary nudges; thorough: every millisecond of the day for SRT/WebVTT/TTML, every centisecond +-1ns for SSA, every frame boundary +-1ns of the day for STL at 25/30 fps. Each instant is checked for grammar, floor value, monotonicity, reader inverse and write idempotence. Nothing sampled.",
+   note="Trusted: Go toolchain/stdlib, the regexps that locate timing fields. The 'randomly at nanosecond resolution elsewhere' clause is not claimed."),
  "C01": dict(level="exploration", design="§3 C01, §0.1 E1",
    technique="stateless choice-sequence exploration (E1): full product of a tiny grammar plus all documents within B deviations of the baseline over model and rendering choice points, each executed on the real reader/writer and judged against an independent reference codec",
    text="Every (cue model, rendering) in the product and in the deviation ball is rendered, read by ReadFromSRT and compared on denotations; every representable model is written by WriteToSRT and decoded both by the library and by an independent decoder, plus a grammar check. Exhaustive within the bound; no sampling.",
